@@ -131,7 +131,8 @@ class CallGraph:
     def succ(self, a):
         return list(self.edges.get(a, {}).keys())
 
-    def reachable(self, roots):
+    def reachable(self, roots, stop=()):
+        """nodes reachable from roots; the callees of a node in `stop` (compared by definition) are not followed"""
         seen = set()
         st = list(roots)
         while st:
@@ -139,6 +140,8 @@ class CallGraph:
             if x in seen:
                 continue
             seen.add(x)
+            if stop and self.def_of(x) in stop:
+                continue
             st.extend(self.succ(x))
         return seen
 
